@@ -191,6 +191,7 @@ func c14(c *Ctx) {
 	if c.Proofs.ModelBuilt {
 		var err error
 		model, err = h.RunModel(c.Driver, lines)
+		c.CrossAll(lines, model)
 		if err != nil {
 			fmt.Println(err)
 			model = nil
